@@ -3,13 +3,13 @@
 from __future__ import annotations
 
 import ast
-from typing import Optional
+from typing import List, Optional, Tuple
 
 from oqv.astutil import call_name, method_call
 from oqv.cfg import CFG
 from oqv.dataflow import DefUse, form_at
 from oqv.forms import Poly, eval_form
-from oqv.model import AnalysisError, Program, dotted, norm, walk_local
+from oqv.model import AnalysisError, Program, Unit, dotted, norm, walk_local
 from oqv.report import Check
 from rules import c14
 
@@ -22,9 +22,11 @@ def run(prog: Program, chk: Check) -> None:
         "construction, and gibbs_tempo_compute returns get_state(); K3 the imaginary-time slice "
         "is 1/(T*n_steps), labels are step*dt, and the label offset used by the front end equals "
         "the offset between the back end's step counter and its data list, so the last state is "
-        "labelled n_steps*dt = 1/T.")
-    chk.not_decided = ("Equality with the reduced thermal state, the weak-coupling limit and the "
-                       "orientation (transpose) of the result for complex Hamiltonians.")
+        "labelled n_steps*dt = 1/T; K4 Matsubara coefficients on the imaginary-time grid; K5 "
+        "every factor of the imaginary-time path is the untransposed half-step propagator.")
+    chk.not_decided = ("Equality with the reduced thermal state at finite coupling and the "
+                       "weak-coupling limit. K5 decides the orientation of the result only through "
+                       "the transposition parity of the propagator factors.")
     # ---------------------------------------------------------------- K1
     chk.rule("K1", "GibbsTempo.compute: the number of further steps depends on the back end's "
              "current step and on n_steps", floor=1)
@@ -184,6 +186,8 @@ def run(prog: Program, chk: Check) -> None:
                 f"bound {f}: final label (STEP+{offset})*dt = N*dt = 1/T" if f == want else
                 f"bound {f}, expected {want}: the last state would not be at 1/T", loop)
     k4(prog, chk)
+    k5(prog, chk)
+    k6(prog, chk)
 
 
 def k4(prog: Program, chk: Check) -> None:
@@ -229,6 +233,200 @@ def k4(prog: Program, chk: Check) -> None:
         ok = f == -(Poly.sym("I") * Poly.sym("DT"))
     chk.add("K4", u, f"get_unitary_propagators({norm(pc[0].args[0]) if pc else '?'}, ..)", ok,
             "imaginary time step -i*dt" if ok else "the free propagator is not exp(-H dt/2)")
+
+
+# --------------------------------------------------------------------- K5
+def _is_transpose(x: ast.AST) -> Optional[ast.AST]:
+    """Operand if x is a matrix transpose (x.T, x.transpose(), np.transpose(x),
+    np.swapaxes(x, 0, 1)), else None."""
+    if isinstance(x, ast.Attribute) and x.attr == "T":
+        return x.value
+    if isinstance(x, ast.Call):
+        fn = dotted(x.func) or ""
+        if isinstance(x.func, ast.Attribute) and x.func.attr == "transpose" and not x.args \
+                and fn.split(".")[0] not in ("np", "numpy"):
+            return x.func.value
+        if fn in ("np.transpose", "numpy.transpose", "transpose") and len(x.args) == 1:
+            return x.args[0]
+        if fn in ("np.swapaxes", "numpy.swapaxes", "swapaxes") and len(x.args) == 3 \
+                and [getattr(a, "value", None) for a in x.args[1:]] in ([0, 1], [1, 0]):
+            return x.args[0]
+    return None
+
+
+def occurrence_parities(root: ast.AST, is_target) -> List[Tuple[ast.AST, int]]:
+    """(occurrence, number of transposes enclosing it inside root) for every node accepted
+    by is_target."""
+    out = []
+
+    def rec(x, par):
+        if is_target(x):
+            out.append((x, par))
+            return
+        op = _is_transpose(x)
+        if op is not None:
+            rec(op, par + 1)
+            # remaining children of a call (axes arguments) carry no matrix
+            return
+        for ch in ast.iter_child_nodes(x):
+            rec(ch, par)
+    rec(root, 0)
+    return out
+
+
+PROP_USERS = ("_influence_tensor", "initialise", "readout")
+
+
+def propagator_parities(prog: Program):
+    """Transposition parity of the half-step propagator inside TIBaseBackend:
+    (parity at storage, [(unit, statement, occurrence, parity at use)])."""
+    be = prog.cls("backends.tempo_backend:TIBaseBackend")
+    init = be.methods["__init__"]
+    if "propagator" not in init.params:
+        raise AnalysisError("K5: TIBaseBackend.__init__ lost its propagator argument")
+    store = [st for st in walk_local(init.node) if isinstance(st, ast.Assign)
+             and any(dotted(t) == "self._prop" for t in st.targets)]
+    if len(store) != 1:
+        raise AnalysisError("K5: TIBaseBackend no longer stores the propagator once as self._prop")
+    occ = occurrence_parities(store[0].value,
+                              lambda x: isinstance(x, ast.Name) and x.id == "propagator")
+    if len(occ) != 1:
+        raise AnalysisError("K5: self._prop is not the propagator argument (possibly transposed)")
+    p0 = occ[0][1]
+    uses = []
+    for name, mu in be.methods.items():
+        if name == "__init__":
+            continue
+        aliases = {}
+        stmts = [st for st in walk_local(mu.node) if isinstance(st, ast.stmt)
+                 and not isinstance(st, (ast.FunctionDef, ast.If, ast.For, ast.While, ast.With,
+                                         ast.Try))]
+        for st in stmts:
+            if isinstance(st, ast.Assign) and len(st.targets) == 1 \
+                    and isinstance(st.targets[0], ast.Name):
+                o = occurrence_parities(st.value, lambda x: dotted(x) == "self._prop")
+                # plain alias: prop = self._prop / prop = self._prop.T
+                inner = st.value
+                k = 0
+                while _is_transpose(inner) is not None:
+                    inner = _is_transpose(inner)
+                    k += 1
+                n_assign = sum(1 for s2 in stmts if isinstance(s2, (ast.Assign, ast.AugAssign))
+                               and any(isinstance(y, ast.Name) and y.id == st.targets[0].id
+                                       and isinstance(y.ctx, ast.Store) for y in ast.walk(s2)))
+                if dotted(inner) == "self._prop" and n_assign == 1:
+                    aliases[st.targets[0].id] = k
+                    continue
+        for st in stmts:
+            if isinstance(st, ast.Assign) and len(st.targets) == 1 \
+                    and isinstance(st.targets[0], ast.Name) and st.targets[0].id in aliases:
+                continue
+
+            def tgt(x):
+                return dotted(x) == "self._prop" or (
+                    isinstance(x, ast.Name) and isinstance(x.ctx, ast.Load) and x.id in aliases)
+            root = st.value if isinstance(st, (ast.Assign, ast.Return, ast.Expr, ast.AugAssign)) \
+                else st
+            if root is None:
+                continue
+            for (x, par) in occurrence_parities(root, tgt):
+                extra = aliases.get(x.id, 0) if isinstance(x, ast.Name) else 0
+                uses.append((mu, st, x, par + extra))
+    bad = sorted({mu.name for (mu, _, _, _) in uses} - set(PROP_USERS))
+    if bad:
+        raise AnalysisError(f"K5: the propagator is now also used in {bad}; the use-site table "
+                            f"(_influence_tensor, initialise, readout) must be re-confirmed")
+    if len(uses) < 4 or {mu.name for (mu, _, _, _) in uses} != set(PROP_USERS):
+        raise AnalysisError(f"K5: expected propagator uses in {PROP_USERS}, found "
+                            f"{sorted({mu.name for (mu, _, _, _) in uses})} ({len(uses)} uses)")
+    return p0, uses
+
+
+def caller_parity(prog: Program) -> Tuple[int, ast.AST, Unit]:
+    u = prog.unit("tempo:GibbsTempo._prepare_backend")
+    calls = [c for c in walk_local(u.node) if isinstance(c, ast.Call)
+             and call_name(c) == "TIBaseBackend"]
+    if len(calls) != 1:
+        raise AnalysisError("K5: GibbsTempo._prepare_backend no longer builds one TIBaseBackend")
+    be = prog.cls("backends.tempo_backend:TIBaseBackend")
+    from oqv.astutil import bind_args
+    b = bind_args(calls[0], [p for p in be.methods["__init__"].params if p != "self"])
+    e = b.get("propagator")
+    if e is None:
+        raise AnalysisError("K5: TIBaseBackend(...) is built without a propagator")
+    env = {}
+    for st in walk_local(u.node):
+        if isinstance(st, ast.Assign) and len(st.targets) == 1 and isinstance(st.targets[0], ast.Name):
+            env.setdefault(st.targets[0].id, []).append(st.value)
+    par, depth = 0, 0
+    while depth < 10:
+        depth += 1
+        op = _is_transpose(e)
+        if op is not None:
+            par, e = par + 1, op
+            continue
+        if isinstance(e, ast.Subscript):
+            e = e.value
+            continue
+        if isinstance(e, ast.Name) and len(env.get(e.id, [])) == 1:
+            e = env[e.id][0]
+            continue
+        if isinstance(e, ast.Call) and isinstance(e.func, ast.Name) and len(env.get(e.func.id, [])) == 1:
+            e = env[e.func.id][0]
+            continue
+        break
+    if not (isinstance(e, ast.Call) and isinstance(e.func, ast.Attribute)
+            and e.func.attr == "get_unitary_propagators"):
+        raise AnalysisError(f"K5: the propagator handed to TIBaseBackend does not come from "
+                            f"get_unitary_propagators (`{norm(e)[:60]}`)")
+    return par, calls[0], u
+
+
+def k5(prog: Program, chk: Check) -> None:
+    chk.rule("K5", "orientation of the thermal state: every factor of the imaginary-time path "
+             "is the half-step propagator exp(-H dt/2) itself - the transposes applied where "
+             "GibbsTempo hands it over, where TIBaseBackend stores it and where it is used "
+             "(_influence_tensor, initialise, readout) add up to an even number at every use. "
+             "At zero coupling the read-out is the ordered product of that one matrix, so an odd "
+             "total returns (exp(-H/T)/Z)^T, which differs for every Hamiltonian with complex "
+             "entries", floor=4)
+    pc, call, cu = caller_parity(prog)
+    p0, uses = propagator_parities(prog)
+    chk.saw(cu)
+    for (mu, st, x, par) in uses:
+        total = pc + p0 + par
+        chk.add("K5", mu, f"{norm(st)[:70]}", total % 2 == 0,
+                f"transposes: {pc} at GibbsTempo._prepare_backend + {p0} at storage + {par} at "
+                f"this use = {total}" + ("" if total % 2 == 0 else
+                                         ": this factor of the path is exp(-H dt/2)^T"), x)
+
+
+
+# --------------------------------------------------------------------- K6
+def k6(prog: Program, chk: Check) -> None:
+    chk.rule("K6", "the imaginary-time coefficients are computed for matsubara=True and not "
+             "served from a slot a real-time evaluation may have filled: every function of "
+             "bath_correlations with a `matsubara` argument that keeps a hand-written memo keys "
+             "it by that argument (functools caches key by all arguments)", floor=3)
+    from rules.c20 import _a7_unit
+    n = 0
+    for u in prog.units_in("bath_correlations"):
+        if isinstance(u.node, ast.Lambda) or "matsubara" not in u.params:
+            continue
+        n += 1
+        memos = _a7_unit(u)
+        if not memos:
+            chk.add("K6", u, "no hand-written memo", True,
+                    "values are recomputed or cached by functools on the full argument tuple")
+        for (st, attr, key_expr, covered, missing) in memos:
+            ok = "matsubara" not in missing
+            chk.add("K6", u, f"memo {attr}[{norm(key_expr)}]", ok,
+                    f"keyed / validated by {covered}" if ok else
+                    "the Matsubara flag is not part of the key: after a real-time evaluation on "
+                    "the same grid GibbsTempo is served real-time kernels", st)
+    if n < 3:
+        raise AnalysisError(f"K6: only {n} functions with a matsubara argument left (floor 3)")
+
 
 
 def _normalised(du: DefUse, nid: int, v: ast.AST):
